@@ -198,4 +198,7 @@ def split_array(data, f_sample_num=None, t_sample_num=None,
     if f_trim:
         split_data = list(filter(lambda A: A.shape[1] == f_sample_num,
                                  split_data))
+    # Frames at ragged edges differ in shape and can't be stacked into one array
+    if len(set(A.shape for A in split_data)) > 1:
+        return split_data
     return np.array(split_data)
